@@ -179,6 +179,13 @@ func txState(w *load.World, c *core.Collector, f *ssa.Function, newTx *ssa.Call)
 		}
 		return false
 	}
+	type helperCommit struct {
+		site     *ssa.Call
+		kind     string // const | neq | eql | "" (unknown)
+		constVal bool
+		errArg   ssa.Value
+	}
+	var helperCommits []helperCommit
 	var dbCall *ssa.Call
 	var commits []*ssa.Call
 	var deferred []*ssa.Defer // deferred Commit, directly or inside a deferred function literal
@@ -209,6 +216,41 @@ func txState(w *load.World, c *core.Collector, f *ssa.Function, newTx *ssa.Call)
 			}
 			if ssax.IsMethod(call.Common(), "cache.Transaction", "Commit") && isTx(call.Call.Args[0]) {
 				commits = append(commits, call)
+			}
+			// a helper that commits the transaction it is handed
+			if g := call.Call.StaticCallee(); g != nil && ssax.InModule(g) && !ssax.IsMethod(call.Common(), "cache.Transaction", "Commit") {
+				for i, a := range call.Call.Args {
+					if !isTx(a) || i >= len(g.Params) {
+						continue
+					}
+					for _, gb := range g.Blocks {
+						for _, gi := range gb.Instrs {
+							ic, ok := gi.(*ssa.Call)
+							if !ok || !ssax.IsMethod(ic.Common(), "cache.Transaction", "Commit") || ic.Call.Args[0] != ssa.Value(g.Params[i]) {
+								continue
+							}
+							hc := helperCommit{site: call}
+							flag := ic.Call.Args[1]
+							if cv, isC := ssax.ConstBool(flag); isC {
+								hc.kind, hc.constVal = "const", cv
+							} else if bo, ok := flag.(*ssa.BinOp); ok && (bo.Op == token.NEQ || bo.Op == token.EQL) && (ssax.IsNilConst(bo.X) || ssax.IsNilConst(bo.Y)) {
+								other := bo.X
+								if ssax.IsNilConst(bo.X) {
+									other = bo.Y
+								}
+								for j, q := range g.Params {
+									if ssa.Value(q) == other && j < len(call.Call.Args) {
+										hc.kind, hc.errArg = "neq", call.Call.Args[j]
+										if bo.Op == token.EQL {
+											hc.kind = "eql"
+										}
+									}
+								}
+							}
+							helperCommits = append(helperCommits, hc)
+						}
+					}
+				}
 			}
 		}
 	}
@@ -395,6 +437,26 @@ func txState(w *load.World, c *core.Collector, f *ssa.Function, newTx *ssa.Call)
 			bad = true
 		}
 	}
+	for _, hc := range helperCommits {
+		var v core.Verdict = core.OK
+		d := ""
+		switch {
+		case hc.kind == "neq" && hc.errArg == errV:
+		case hc.kind == "eql" && hc.errArg == errV:
+			v, d = core.Violation, "the helper that commits the cache transaction is told the transaction failed exactly when it succeeded"
+		case hc.kind == "const" && hc.constVal && !onlyVia(nonNil, hc.site.Block()):
+			v, d = core.Violation, "a helper that commits with fail=true is called on a path where the storage transaction succeeded"
+		case hc.kind == "const" && !hc.constVal && !onlyVia(isNil, hc.site.Block()):
+			v, d = core.Violation, "a helper that commits with fail=false is reachable although the storage transaction failed: the shared caches would keep partial state"
+		case hc.kind == "const":
+		default:
+			v, d = core.Undecided, "the helper that commits the cache transaction does not derive its flag from the storage transaction's error"
+		}
+		if v != core.OK {
+			c.Add("TXSTATE", "commit-flag:"+key, v, w.At(hc.site), d, props...)
+			bad = true
+		}
+	}
 	for _, cm := range commits {
 		if v, d := flagVerdict(cm.Call.Args[1], cm.Block(), 0); v != core.OK {
 			c.Add("TXSTATE", "commit-flag:"+key, v, w.At(cm), d, props...)
@@ -423,6 +485,11 @@ func txState(w *load.World, c *core.Collector, f *ssa.Function, newTx *ssa.Call)
 			}
 			for _, d := range deferred {
 				if ssax.Precedes(d, ret) {
+					okc = true
+				}
+			}
+			for _, hc := range helperCommits {
+				if ssax.Precedes(hc.site, ret) {
 					okc = true
 				}
 			}
